@@ -30,6 +30,8 @@ structure DState where
   spec : Map String := ∅
   /-- (observed tag, abstract visible state incl. config) pairs seen so far -/
   tags : List (String × Map String) := []
+  /-- number of acknowledged requests that changed the abstract contents -/
+  specCommits : Nat := 0
 
 def parseHk : String → HKind
   | "ical" => .ical
@@ -89,7 +91,7 @@ def step (d : DState) (line : String) : DState × String :=
   let obs := words obsS
   match words opS with
   | ["new", k] =>
-    ({ d with model := init (parseKind k), spec := ∅, tags := [] }, "new | ok")
+    ({ d with model := init (parseKind k), spec := ∅, tags := [], specCommits := 0 }, "new | ok")
   | ["attr", hk, tok, v, p, uid, norm] =>
     let row : AttrRow := { hk := parseHk hk, tok := fieldS tok, valid := v == "1",
                            parses := p == "1", uid := field uid, norm := fieldS norm }
@@ -102,7 +104,8 @@ def step (d : DState) (line : String) : DState × String :=
       | some oo => Spec.allowed env d.model.kind d.spec op (some oo)
       | none => some "unparsed-observation"
     let spec' := Spec.apply d.spec op oObs
-    ({ d with model := m', spec := spec' }, showOut o ++ " | " ++ verdict v)
+    let sc := if spec' == d.spec then d.specCommits else d.specCommits + 1
+    ({ d with model := m', spec := spec', specCommits := sc }, showOut o ++ " | " ++ verdict v)
   | ["del", n, e] =>
     let op := Op.del (fieldS n) (field e)
     let (m', o) := deleteOne d.model (fieldS n) (field e)
@@ -111,12 +114,20 @@ def step (d : DState) (line : String) : DState × String :=
       | some oo => Spec.allowed env d.model.kind d.spec op (some oo)
       | none => some "unparsed-observation"
     let spec' := Spec.apply d.spec op oObs
-    ({ d with model := m', spec := spec' }, showOut o ++ " | " ++ verdict v)
+    let sc := if spec' == d.spec then d.specCommits else d.specCommits + 1
+    ({ d with model := m', spec := spec', specCommits := sc }, showOut o ++ " | " ++ verdict v)
   | ["list"] =>
     let out := "list " ++ encPairs d.model.blobs
     -- monitor: the observed listing must be exactly the live members of the spec state
-    let expect := "list " ++ encPairs (blobsOf d.model.kind d.spec)
-    let v := if obsS.trimAscii.toString == expect then none else some ("C01:listing-differs expected " ++ expect)
+    let want := blobsOf d.model.kind d.spec
+    let expect := "list " ++ encPairs want
+    let got := match obs with
+      | ["list", l] => decPairs l
+      | _ => []
+    let v := if obsS.trimAscii.toString == expect then none
+      else if got.map (·.1) == want.map (·.1) then
+        some ("C02:listed-etag-is-not-the-hash-of-the-acknowledged-content expected " ++ expect)
+      else some ("C01:listing-differs expected " ++ expect)
     (d, out ++ " | " ++ verdict v)
   | ["get", n] =>
     let show' : Option String → String := fun
@@ -161,7 +172,16 @@ def step (d : DState) (line : String) : DState × String :=
     let head := match d.model.commits.getLast? with
       | some t => showTree t
       | none => "~"
-    (d, s!"commits {d.model.commits.length} {head} | ok")
+    -- monitor C09: one commit per acknowledged change, none otherwise; HEAD's tree = contents
+    let v := match obs with
+      | ["commits", n, t] =>
+        if n != toString d.specCommits then
+          some s!"C09:commit-count {n} but {d.specCommits} acknowledged changes"
+        else if d.specCommits > 0 && t != showTree d.spec then
+          some ("C09:head-tree-differs expected " ++ showTree d.spec)
+        else none
+      | _ => none
+    (d, s!"commits {d.model.commits.length} {head} | " ++ verdict v)
   | ["restart"] =>
     ({ d with model := restart d.model }, "restart | ok")
   | [] => (d, "")
